@@ -757,7 +757,7 @@ def run(tier):
     build.ensure("san")
     build.ensure("rel")
     pool = core.Pool()
-    dl = core.Deadline(float(os.environ.get("C08_DEADLINE", 170 if tier == "quick" else 1750)))
+    dl = core.Deadline(float(os.environ.get("C08_DEADLINE", 240 if tier == "quick" else 1750)))
     total = 0
     for name, cs, chunk in bounds(tier):
         if dl.passed():
